@@ -19,25 +19,32 @@ RULE = ("Hypothesis-generated Deferred histories: a Deferred with 0..3 callbacks
         "Values include an object with identity only and the tuples () and (1, 2); wherever the model knows which object the Deferred delivers, later callbacks, the inner "
         "matcher of succeeded() and extract_result (value returned / exception raised) must meet that very object; every value also meets succeeded(Never()) and "
         "succeeded(Is(value)); one matcher object is applied to a sibling Deferred first and then to the Deferred at hand; after match-then-fire / match-then-fail / "
-        "match-while-paused-then-unpause the three matchers are applied again; the second match after the chain grew also uses the generated inner matcher; an inner "
-        "matcher that raises while failed() inspects a failure still leaves the failure handled. A complete grid (raw state x kind of value / exception / failure form x "
+        "match-while-paused-then-unpause the three matchers are applied again; the second match after the chain grew also uses the generated inner matcher; the handled-marking of an inspected failure is "
+        "checked with inner matchers that match and that do not (not with ones that raise). A complete grid (raw state x kind of value / exception / failure form x "
         "every single callback and two pairs x after-match history) runs under the random histories so that catches do not depend on the seed. Runner differential: also mixed "
         "programs in which some stages return fired Deferreds and the others return / raise directly under the same runner (every program with <= 2 faulty stages, four "
-        "direct-stage sets), the names of the details that carry a stage's marker, and the Twisted log (no 'Unhandled error in Deferred' after the Deferred run unless the "
+        "direct-stage sets), the names of the details that carry a stage's marker (those of the direct run must be among those of the Deferred run), and the Twisted log (no 'Unhandled error in Deferred' after the Deferred run unless the "
         "direct run has one too). "
         "Non-trivial: callbacks attached before matching, or a "
         "match-then-fire history, or a nested inner matcher; distinct = distinct canonical spec.")
 ASSUMPTIONS = [
     "a Deferred whose chain is paused on an unfired inner Deferred has no result yet and is classified as such",
-    "has_no_result() on a failed Deferred is not required to mark the failure handled",
+    "has_no_result() is a passive probe on a failed Deferred too: it is not required to mark the failure handled (it may, as long as the failure stays), "
+    "but the failure it reports stays on the Deferred, so that failed() still matches it and a later errback still sees it, whichever of the three matchers "
+    "looks first (the statement's 'exactly one ... matches, according to whether it has ... fired with a failure' over 'all orders of match / fire / "
+    "add-callback', and on_deferred_result's documented 'the value of deferred will be preserved, so that other callbacks and errbacks can be added'); the "
+    "statement's list of what matching leaves intact does not name this case, so this is a reading: an implementation in which has_no_result() consumes the "
+    "failure it reports (the Deferred then delivers None) is reported, under intact:has_no_result-consumed-failure and the *-rematch / *-then-failed buckets",
     "each of the three matchers is applied to its own structurally equal Deferred (inspecting a failure with "
     "succeeded()/failed() consumes it by design)",
     "the same holds for a Deferred that was pause()d before it was fired: 'has fired' in the statement is read as 'delivers a result to a callback added now', "
     "not as Deferred.called; an implementation that classifies by .called / .result on purpose would be reported",
-    "a failure handed to the inner matcher of failed() counts as inspected even when that matcher raises: it must not be logged as unhandled "
-    "(what failed().match() itself does then - raise or return - is not constrained)",
+    "'all inner matchers' are matchers whose match() returns None or a Mismatch (the documented Matcher contract): whether a failure is marked handled when "
+    "the inner matcher of failed() raises is not constrained (marking before or after consulting the inner matcher are both admitted)",
     "'as if it had returned or raised directly' covers the outcome, the stages that ran, what run() raises, which details carry the stage's marker and what those "
-    "details are called, and the absence of an unhandled-error log; further details a runner attaches on its own are not compared",
+    "details are called, and the absence of an unhandled-error log, in this direction: every outcome, marker and marker-carrying detail name of the direct "
+    "report must be in the Deferred report, and the details both reports have must carry the same markers; details that only the Deferred report has (a log, "
+    "the runner's own rendering of the Failure, even when it quotes the stage's exception) are not compared",
     "the log clauses count only events that look like the ones this Twisted emits for a failed Deferred dropped unhandled (learnt once per process by dropping "
     "one); they need an interpreter that finalises unreferenced objects promptly (CPython) - elsewhere they are blind (label log-clauses-blind), not wrong",
     "identity is demanded only of objects the model can name: the fired value / exception when every callback in front hands it through untouched, otherwise the "
@@ -576,15 +583,10 @@ def run_case(spec):
         del d, obj
         # --- inspected failures are marked handled
         if kind == "failure":
-            def inner_raises(d):
-                # the inner matcher raises while it looks at the failure: whatever failed() does about that,
-                # the failure has been inspected
-                try:
-                    failed(tm.AfterPreprocessing(lambda f: f.value.args[7], tm.Always())).match(d)
-                except Exception:
-                    pass
+            # (inner matchers that return a verdict, as Matcher.match is documented to: what becomes of the failure when
+            # the inner matcher raises out of failed().match() - the test errors anyway - is not constrained)
             probes = (("succeeded", lambda d: succeeded(tm.Always()).match(d)), ("failed", lambda d: failed(tm.Never()).match(d)),
-                      ("failed-matching", lambda d: failed(tm.Always()).match(d)), ("failed-inner-raises", inner_raises))
+                      ("failed-matching", lambda d: failed(tm.Always()).match(d)))
             gc.collect(1)
             n0 = len(cap.unhandled())
             for name, probe in probes:
@@ -684,15 +686,29 @@ def run_program_pair(spec):
                 raise
             left = type(e).__name__
         log.append(("run() raised", left))
-        # per outcome: its name, which stages' markers its details carry, and what the details that carry one are
-        # called (a runner is free to attach further details of its own, say a log)
+        # per outcome: its name and, for every detail that carries a stage's marker, what it is called and which
+        # markers it carries (a runner is free to attach further details of its own, say a log or its own rendering
+        # of the Failure - see compare_outcomes)
         marks = ("MARK-setUp", "MARK-test", "MARK-tearDown", "MARK-cleanup")
-        outs = [(e[0], sorted(m for m in marks
-                               if any(m.encode() in d[2] for d in (e[2].get("details") or {}).values() if isinstance(d[2], bytes))),
-                 sorted(k for k, d in (e[2].get("details") or {}).items() if isinstance(d[2], bytes) and any(m.encode() in d[2] for m in marks)))
-                for e in res.events if e[0].startswith("add")]
+        outs = []
+        for e in res.events:
+            if e[0].startswith("add"):
+                carried = {}
+                for k, d in (e[2].get("details") or {}).items():
+                    if isinstance(d[2], bytes):
+                        ms = sorted(m for m in marks if m.encode() in d[2])
+                        if ms:
+                            carried[k] = ms
+                outs.append((e[0], carried))
         del res
         return log, outs
+
+    def flat(outs, only=None):
+        """-> [(outcome, markers carried, names of the details that carry one)], optionally looking only at the
+        details called as in ``only`` (one collection of names per outcome)."""
+        return [(name, sorted({m for k, ms in carried.items() if only is None or k in only[i] for m in ms}),
+                 sorted(k for k in carried if only is None or k in only[i]))
+                for i, (name, carried) in enumerate(outs)]
 
     def unhandled_after(deferred_mode):
         """Run one arm; -> (log, outcomes, number of 'Unhandled error in Deferred' events by the time its garbage is gone)."""
@@ -702,18 +718,27 @@ def run_program_pair(spec):
         gc.collect(1)
         return log, outs, len(cap.unhandled()) - n0
     with LogCapture() as cap:
-        a_log, a_out, a_unh = unhandled_after(False)
-        b_log, b_out, b_unh = unhandled_after(True)
+        a_log, a_raw, a_unh = unhandled_after(False)
+        b_log, b_raw, b_unh = unhandled_after(True)
         if b_unh != a_unh and unhandled_after(True)[2] == b_unh:      # (reproducibly, so that nobody else's garbage is blamed on this program)
             vs.append(V("sync-runner", "unhandled-error-logged", "a stage's fired Deferred was left with an unhandled failure: %d 'Unhandled error in Deferred' event(s) "
                         "after the run with Deferreds, %d after returning/raising directly: %r" % (b_unh, a_unh, cap.unhandled()[-2:])))
     if a_log != b_log:
         vs.append(V("sync-runner", "stage-order", "stages ran %r with Deferreds, %r directly" % (b_log, a_log)))
-    if [o[:2] for o in a_out] != [o[:2] for o in b_out]:
-        vs.append(V("sync-runner", "outcome", "returning fired Deferreds gave %r, returning/raising directly gave %r" % (b_out, a_out)))
-    elif a_out != b_out:
+    # what the direct report says must be in the Deferred report: the same outcomes, every stage marker of the direct
+    # report, in details of the same names.  Details that only the Deferred report has are the runner's own business
+    # (even when they quote the stage's exception, as a rendering of the Failure does): the Deferred report is
+    # compared through the details the direct report has.
+    a_out, b_all = flat(a_raw), flat(b_raw)
+    same_outcomes = [o[0] for o in a_out] == [o[0] for o in b_all]
+    b_out = flat(b_raw, [o[2] for o in a_out]) if same_outcomes else b_all
+    if not same_outcomes or any(not set(a[1]) <= set(b[1]) for a, b in zip(a_out, b_all)):
+        vs.append(V("sync-runner", "outcome", "returning fired Deferreds gave %r, returning/raising directly gave %r" % (b_all, a_out)))
+    elif [o[2] for o in a_out] != [o[2] for o in b_out]:
         vs.append(V("sync-runner", "detail-names", "returning fired Deferreds gave details named %r, returning/raising directly %r" % (
-            [o[2] for o in b_out], [o[2] for o in a_out])))
+            [o[2] for o in b_all], [o[2] for o in a_out])))
+    elif a_out != b_out:
+        vs.append(V("sync-runner", "outcome", "returning fired Deferreds gave %r, returning/raising directly gave %r (in the details both reports have)" % (b_all, a_out)))
     nt = sum(1 for k in STAGES if spec[k][0] not in ("ok",)) >= 1
     return Case(vs, nt, ["faulty-stages=%d" % sum(1 for k in STAGES if spec[k][0] not in ("ok", "value")),
                          "direct-stages=%d" % len(direct) if direct else "",
